@@ -9,6 +9,8 @@ import RModel.Model.Apply
     and `coercion.rs::apply_coercion` as the planner uses it on file names
     (`detect_style`, `tokenize`, `render_tokens`, `replace_case_insensitive`, `extract_prefix`).
 
+  State of the source modelled: /repo HEAD 70a22d6 (with 4d2e5a7 `dedup_renames`).
+
   Parameters (not modelled here, compared differentially):
    * the walker's entry list per root (`Entry` = path + what `entry.file_type()` says); scope is C09's subject.
      `entriesOf` is the instance used when nothing is ignored: every node at or below the root except what
@@ -367,17 +369,31 @@ def planWithSearch (T : Tables) (o : Opts) (vmap : List VEntry) (es : List Entry
   let p := planRoot T o vmap es
   if p.conflicts.isEmpty then .ok p.renames else .error p.conflicts.length
 
-/-- the `paths` of `scan_repository_multi`: per root, appended; the first refusal aborts the scan -/
-def planMulti (T : Tables) (o : Opts) (vmap : List VEntry) : List (List Entry) → Except Nat (List Ren)
+/-- the per-root loop of `scan_repository_multi`: the per-root plans appended; the first refusal aborts the scan
+    (this was the whole of `paths` before 4d2e5a7) -/
+def planLoop (T : Tables) (o : Opts) (vmap : List VEntry) : List (List Entry) → Except Nat (List Ren)
   | [] => .ok []
   | es :: rest =>
     if !(o.renameFiles || o.renameDirs) then .ok []
     else match planWithSearch T o vmap es with
       | .error n => .error n
       | .ok rs =>
-        match planMulti T o vmap rest with
+        match planLoop T o vmap rest with
         | .error n => .error n
         | .ok rs' => .ok (rs ++ rs')
+
+/-- `scanner.rs::dedup_renames`: keep the first planned rename of every node.  The key is the canonicalised
+    parent directory joined with the entry's own name; the walker never descends through a symlink, so for the
+    paths of the model (no symlinked directory inside a path) the key is the path itself. -/
+def dedupRens : List Ren → List Ren
+  | [] => []
+  | r :: rs => r :: (dedupRens rs).filter (fun x => !(x.path == r.path))
+
+/-- the `paths` of `scan_repository_multi`: the loop, then `dedup_renames` -/
+def planMulti (T : Tables) (o : Opts) (vmap : List VEntry) (ess : List (List Entry)) : Except Nat (List Ren) :=
+  match planLoop T o vmap ess with
+  | .error n => .error n
+  | .ok rs => .ok (dedupRens rs)
 
 /-- `Path::canonicalize` of a planned source, as far as it matters: a symlink whose target resolves
     (lexically: `.`/`..`/names, relative to the link's directory) to an existing node is replaced by
